@@ -46,7 +46,7 @@ type inputT struct {
 	Eku      bool   `json:"eku"`
 	Unknown  string `json:"unknown"`
 	Ski      bool   `json:"ski"`
-	Sigok    bool   `json:"sigok"`
+	Sig      string `json:"sig"`
 	Form     string `json:"form"`
 	Aki      bool   `json:"aki"`
 }
@@ -182,8 +182,18 @@ func (w *world) input(mode string, in inputT) []byte {
 			t.ExtraExtensions = append(t.ExtraExtensions, pkix.Extension{Id: oidSKI, Value: must(asn1.Marshal(bogusSKI))})
 		}
 		der = must(x509.CreateCertificateRequest(rand.Reader, t, w.requester))
-		if !in.Sigok {
+		switch in.Sig {
+		case "broken":
 			der[len(der)-3] ^= 0x40
+		case "weakalg":
+			// the request claims md5WithRSAEncryption (same length as sha256WithRSAEncryption): what follows cannot be a
+			// signature by the holder of the key under that algorithm, and the library refuses to evaluate it at all
+			sha256rsa := []byte{0x2a, 0x86, 0x48, 0x86, 0xf7, 0x0d, 0x01, 0x01, 0x0b}
+			if i := bytes.LastIndex(der, sha256rsa); i >= 0 {
+				der[i+8] = 0x04
+			} else {
+				panic("no signature algorithm to replace")
+			}
 		}
 	} else {
 		t := &x509.Certificate{SerialNumber: keptSerial, Subject: subject, NotBefore: time.Now().Add(-48 * time.Hour), NotAfter: time.Now().Add(48 * time.Hour)}
